@@ -31,6 +31,19 @@ Theorem C09_crash_old_or_new_any_writer :
   reads_agree (cache (run empty_file (A ++ [Fsync; hop]))) v /\ length (fst v) <= L.
 Proof. exact general_crash. Qed.
 
+(* A sync that fails forces nothing to stable storage; the writer must then never store the header.  For the trace
+   of lm/binary_format.cc with FinishFile's sync failing (exception, destructors), and for ANY sequence of operations that
+   does not store the header: at every instant, every crash image is rejected. *)
+Theorem C09_failed_sync_never_loads : forall pm_ok body_size words_ok wm iv c t1 t2 sel L cfg, wf_contents c ->
+  failed_sync_trace wm iv c = t1 ++ t2 ->
+  load pm_ok body_size words_ok cfg (crash_image (run empty_file t1) sel L) = None.
+Proof. exact failed_sync_never_loads. Qed.
+
+Theorem C09_no_header_store_never_loads : forall pm_ok body_size words_ok ops t1 t2 sel L cfg,
+  Forall safe_op ops -> ops = t1 ++ t2 ->
+  load pm_ok body_size words_ok cfg (crash_image (run empty_file t1) sel L) = None.
+Proof. exact never_loads. Qed.
+
 (* The complete Sanity header is visible (in the page cache) only when every other byte of the file is
    already on stable storage with its final value. *)
 Theorem C09_header_last : forall wm iv c t1 t2, wf_contents c -> finish_trace wm iv c = t1 ++ t2 ->
